@@ -43,6 +43,10 @@ def main(tier, only=None):
         e1.run_set(chk, "c13/arith.c", [e1.H("h_additive", "arith/additive-operand-types-answered", unwind=10, timeout=600, native=False, object_bits=13,
                                             desc="new_add/new_sub on every pair of operand type kinds")],
                    extra_src=[os.path.join(vf.REPO, "type.c")])
+        e1.run_set(chk, "c13/arith.c", [e1.H("h_primary_ident", "arith/identifier-operand-by-scope-entry", unwind=12, timeout=600, native=False, object_bits=12,
+                                            desc="primary() on an identifier whose scope entry is an object / typedef / enumerator / absent")],
+                   extra_src=[os.path.join(vf.REPO, "type.c"), os.path.join(vf.REPO, "hashmap.c")])
+        chk.bounds += ["identifier operands: the scope entry of the identifier is symbolic over {absent, object, typedef name, enumeration constant (symbolic value)}"]
         chk.bounds += ["additive operators: new_add / new_sub on all 8 x 8 pairs of operand type kinds (int, long, double, pointer, array, struct, void, pointer to VLA row), symbolic selection"]
     if want("driver"):
         opts = ["-o", "-I", "-idirafter", "-include", "-x", "-MF", "-MT", "-MQ", "-Xlinker", "-D", "-U", "-L", "-cc1-input", "-cc1-output"]
